@@ -4,7 +4,7 @@ namespace Pytask
 namespace Engine
 open G
 
-theorem addNode_edges (g : G) (v : Nat) : (g.addNode v).edges = g.edges := by
+theorem cr_addNode_edges (g : G) (v : Nat) : (g.addNode v).edges = g.edges := by
   unfold G.addNode; split <;> rfl
 
 theorem mem_addEdge (g : G) (u v : Nat) (e : Nat × Nat) :
@@ -13,13 +13,13 @@ theorem mem_addEdge (g : G) (u v : Nat) (e : Nat × Nat) :
   simp only []
   split
   · rename_i h
-    simp only [addNode_edges] at h ⊢
+    simp only [cr_addNode_edges] at h ⊢
     constructor
     · exact Or.inl
     · rintro (h1 | h1)
       · exact h1
       · rw [h1]; simpa using h
-  · simp [addNode_edges]
+  · simp [cr_addNode_edges]
 
 theorem foldl_addEdge_mono {α} (l : List α) (f h : α → Nat) (g : G) (e : Nat × Nat) (he : e ∈ g.edges) :
     e ∈ (l.foldl (fun g x => g.addEdge (f x) (h x)) g).edges := by
@@ -37,46 +37,46 @@ theorem foldl_addEdge_mem {α} (l : List α) (f h : α → Nat) (g : G) (x : α)
     · exact ih _ hx
 
 /-- one iteration of `_create_dag_from_tasks` -/
-def baseStep (g : G) (t : TaskSpec) : G :=
+def crBaseStep (g : G) (t : TaskSpec) : G :=
   let g := g.addNode (tv t.id)
   let g := t.deps.foldl (fun g d => g.addEdge (nv d) (tv t.id)) g
   t.prods.foldl (fun g p => g.addEdge (tv t.id) (nv p)) g
 
-theorem baseGraph_eq (P : Project) : baseGraph P = P.tasks.foldl baseStep G.empty := rfl
+theorem baseGraph_eq (P : Project) : baseGraph P = P.tasks.foldl crBaseStep G.empty := rfl
 
-theorem baseStep_mono (g : G) (t : TaskSpec) (e : Nat × Nat) (he : e ∈ g.edges) : e ∈ (baseStep g t).edges := by
-  unfold baseStep
+theorem crBaseStep_mono (g : G) (t : TaskSpec) (e : Nat × Nat) (he : e ∈ g.edges) : e ∈ (crBaseStep g t).edges := by
+  unfold crBaseStep
   simp only []
   apply foldl_addEdge_mono t.prods (fun _ => tv t.id) nv
   apply foldl_addEdge_mono t.deps nv (fun _ => tv t.id)
-  rw [addNode_edges]; exact he
+  rw [cr_addNode_edges]; exact he
 
-theorem baseStep_deps (g : G) (t : TaskSpec) (d : Nat) (hd : d ∈ t.deps) : (nv d, tv t.id) ∈ (baseStep g t).edges := by
-  unfold baseStep
+theorem crBaseStep_deps (g : G) (t : TaskSpec) (d : Nat) (hd : d ∈ t.deps) : (nv d, tv t.id) ∈ (crBaseStep g t).edges := by
+  unfold crBaseStep
   simp only []
   apply foldl_addEdge_mono t.prods (fun _ => tv t.id) nv
   exact foldl_addEdge_mem t.deps nv (fun _ => tv t.id) _ d hd
 
-theorem baseStep_prods (g : G) (t : TaskSpec) (p : Nat) (hp : p ∈ t.prods) : (tv t.id, nv p) ∈ (baseStep g t).edges := by
-  unfold baseStep
+theorem crBaseStep_prods (g : G) (t : TaskSpec) (p : Nat) (hp : p ∈ t.prods) : (tv t.id, nv p) ∈ (crBaseStep g t).edges := by
+  unfold crBaseStep
   simp only []
   exact foldl_addEdge_mem t.prods (fun _ => tv t.id) nv _ p hp
 
 theorem foldl_baseStep_mono (l : List TaskSpec) (g : G) (e : Nat × Nat) (he : e ∈ g.edges) :
-    e ∈ (l.foldl baseStep g).edges := by
+    e ∈ (l.foldl crBaseStep g).edges := by
   induction l generalizing g with
   | nil => exact he
-  | cons a l ih => exact ih _ (baseStep_mono g a e he)
+  | cons a l ih => exact ih _ (crBaseStep_mono g a e he)
 
 theorem foldl_baseStep_edges (l : List TaskSpec) (g0 : G) (t : TaskSpec) (ht : t ∈ l) :
-    (∀ d ∈ t.deps, (nv d, tv t.id) ∈ (l.foldl baseStep g0).edges) ∧
-    (∀ p ∈ t.prods, (tv t.id, nv p) ∈ (l.foldl baseStep g0).edges) := by
+    (∀ d ∈ t.deps, (nv d, tv t.id) ∈ (l.foldl crBaseStep g0).edges) ∧
+    (∀ p ∈ t.prods, (tv t.id, nv p) ∈ (l.foldl crBaseStep g0).edges) := by
   induction l generalizing g0 with
   | nil => cases ht
   | cons a l ih =>
     rcases List.mem_cons.1 ht with rfl | ht
-    · exact ⟨fun d hd => foldl_baseStep_mono l _ _ (baseStep_deps g0 t d hd),
-             fun p hp => foldl_baseStep_mono l _ _ (baseStep_prods g0 t p hp)⟩
+    · exact ⟨fun d hd => foldl_baseStep_mono l _ _ (crBaseStep_deps g0 t d hd),
+             fun p hp => foldl_baseStep_mono l _ _ (crBaseStep_prods g0 t p hp)⟩
     · exact ih _ ht
 
 theorem baseGraph_edges (P : Project) (t : TaskSpec) (ht : t ∈ P.tasks) :
@@ -102,7 +102,7 @@ theorem afterStep_mono (g : G) (t : TaskSpec) (e : Nat × Nat) (he : e ∈ g.edg
     · exact he
     · exact foldl_addEdge_mono _ (fun s => s) (fun _ => tv t.id) g e he
 
-theorem modifyDag_mono (P : Project) (g : G) (e : Nat × Nat) (he : e ∈ g.edges) : e ∈ (modifyDag P g).edges := by
+theorem cr_modifyDag_mono (P : Project) (g : G) (e : Nat × Nat) (he : e ∈ g.edges) : e ∈ (modifyDag P g).edges := by
   rw [modifyDag_eq]
   generalize P.tasks = l
   induction l generalizing g with
@@ -149,9 +149,9 @@ theorem createDag_covers (P : Project) (cfg : Cfg) (g : G) (marks : List Nat) (h
   unfold neighbours
   refine ⟨fun d hdm => ?_, fun p hpm => ?_⟩
   · simp only [List.mem_append]
-    exact Or.inl (Or.inl (mem_preds_of_edge _ _ _ (modifyDag_mono P _ _ (hd d hdm))))
+    exact Or.inl (Or.inl (mem_preds_of_edge _ _ _ (cr_modifyDag_mono P _ _ (hd d hdm))))
   · simp only [List.mem_append]
-    exact Or.inr (mem_succs_of_edge _ _ _ (modifyDag_mono P _ _ (hp p hpm)))
+    exact Or.inr (mem_succs_of_edge _ _ _ (cr_modifyDag_mono P _ _ (hp p hpm)))
 
 
 /-! ### converse: every edge of the build's graph is a declared one or an `after` edge into a task -/
@@ -167,23 +167,23 @@ theorem foldl_addEdge_inv {α} (l : List α) (f h : α → Nat) (g : G) (e : Nat
       · exact Or.inr ⟨a, by simp, h2⟩
     · exact Or.inr ⟨x, List.mem_cons_of_mem _ hx, rfl⟩
 
-theorem baseStep_inv (g : G) (t : TaskSpec) (e : Nat × Nat) (he : e ∈ (baseStep g t).edges) :
+theorem crBaseStep_inv (g : G) (t : TaskSpec) (e : Nat × Nat) (he : e ∈ (crBaseStep g t).edges) :
     e ∈ g.edges ∨ (∃ d ∈ t.deps, e = (nv d, tv t.id)) ∨ (∃ p ∈ t.prods, e = (tv t.id, nv p)) := by
-  unfold baseStep at he
+  unfold crBaseStep at he
   simp only [] at he
   rcases foldl_addEdge_inv t.prods (fun _ => tv t.id) nv _ e he with h1 | ⟨p, hp, rfl⟩
   · rcases foldl_addEdge_inv t.deps nv (fun _ => tv t.id) _ e h1 with h2 | ⟨d, hd, rfl⟩
-    · rw [addNode_edges] at h2; exact Or.inl h2
+    · rw [cr_addNode_edges] at h2; exact Or.inl h2
     · exact Or.inr (Or.inl ⟨d, hd, rfl⟩)
   · exact Or.inr (Or.inr ⟨p, hp, rfl⟩)
 
-theorem foldl_baseStep_inv (l : List TaskSpec) (g0 : G) (e : Nat × Nat) (he : e ∈ (l.foldl baseStep g0).edges) :
+theorem foldl_baseStep_inv (l : List TaskSpec) (g0 : G) (e : Nat × Nat) (he : e ∈ (l.foldl crBaseStep g0).edges) :
     e ∈ g0.edges ∨ ∃ x ∈ l, (∃ d ∈ x.deps, e = (nv d, tv x.id)) ∨ (∃ p ∈ x.prods, e = (tv x.id, nv p)) := by
   induction l generalizing g0 with
   | nil => exact Or.inl he
   | cons a l ih =>
     rcases ih _ he with h1 | ⟨x, hx, h⟩
-    · rcases baseStep_inv g0 a e h1 with h2 | h2
+    · rcases crBaseStep_inv g0 a e h1 with h2 | h2
       · exact Or.inl h2
       · exact Or.inr ⟨a, by simp, h2⟩
     · exact Or.inr ⟨x, List.mem_cons_of_mem _ hx, h⟩
@@ -211,12 +211,12 @@ theorem afterStep_inv (g : G) (t : TaskSpec) (e : Nat × Nat) (he : e ∈ (after
         · exact Or.inr rfl
     · exact Or.inr h1
 
-theorem isTaskV_tv (t : Nat) : isTaskV (tv t) = true := by
+theorem cr_isTaskV_tv (t : Nat) : isTaskV (tv t) = true := by
   unfold isTaskV tv
   have : (2 * t) % 2 = 0 := by omega
   simp [this]
 
-theorem isTaskV_nv (n : Nat) : isTaskV (nv n) = false := by
+theorem cr_isTaskV_nv (n : Nat) : isTaskV (nv n) = false := by
   unfold isTaskV nv
   have : (2 * n + 1) % 2 = 1 := by omega
   simp [this]
@@ -231,7 +231,7 @@ theorem modifyDag_inv (P : Project) (g : G) (e : Nat × Nat) (he : e ∈ (modify
     rcases ih _ he with h1 | h1
     · rcases afterStep_inv g t e h1 with h2 | h2
       · exact Or.inl h2
-      · exact Or.inr (by rw [h2]; exact isTaskV_tv _)
+      · exact Or.inr (by rw [h2]; exact cr_isTaskV_tv _)
     · exact Or.inr h1
 
 theorem mem_preds_iff (g : G) (a b : Nat) : a ∈ g.preds b ↔ (a, b) ∈ g.edges := by
@@ -269,14 +269,14 @@ theorem Bip.foldl {α} (l : List α) (f h : α → Nat) (g : G) (hb : Bip g) (hl
   | cons a l ih =>
     exact ih _ (hb.addEdge _ _ (hl a (by simp))) (fun x hx => hl x (List.mem_cons_of_mem _ hx))
 
-theorem Bip.baseStep {g : G} (hb : Bip g) (t : TaskSpec) : Bip (baseStep g t) := by
-  unfold Engine.baseStep
+theorem Bip.crBaseStep {g : G} (hb : Bip g) (t : TaskSpec) : Bip (crBaseStep g t) := by
+  unfold Engine.crBaseStep
   simp only []
   apply Bip.foldl t.prods (fun _ => tv t.id) nv
   · apply Bip.foldl t.deps nv (fun _ => tv t.id)
-    · intro e he; rw [addNode_edges] at he; exact hb e he
-    · intro d _; rw [isTaskV_nv, isTaskV_tv]; simp
-  · intro p _; rw [isTaskV_nv, isTaskV_tv]; simp
+    · intro e he; rw [cr_addNode_edges] at he; exact hb e he
+    · intro d _; rw [cr_isTaskV_nv, cr_isTaskV_tv]; simp
+  · intro p _; rw [cr_isTaskV_nv, cr_isTaskV_tv]; simp
 
 theorem Bip.afterStep {g : G} (hb : Bip g) (t : TaskSpec) : Bip (afterStep g t) := by
   unfold Engine.afterStep
@@ -291,7 +291,7 @@ theorem Bip.afterStep {g : G} (hb : Bip g) (t : TaskSpec) : Bip (afterStep g t) 
     · apply Bip.foldl _ (fun s => s) (fun _ => tv t.id) g hb
       intro s hs
       have := hb (tv o, s) ((mem_succs_iff g _ _).1 hs)
-      simp only [isTaskV_tv] at this ⊢
+      simp only [cr_isTaskV_tv] at this ⊢
       cases h : isTaskV s
       · simp
       · rw [h] at this; exact absurd rfl this
@@ -307,7 +307,7 @@ theorem bip_createDag (P : Project) (cfg : Cfg) (g : G) (marks : List Nat) (h : 
     generalize P.tasks = l
     induction l generalizing g0 with
     | nil => exact this
-    | cons a l ih => exact ih _ (this.baseStep a)
+    | cons a l ih => exact ih _ (this.crBaseStep a)
   generalize baseGraph P = g0 at hbase
   generalize P.tasks = l
   induction l generalizing g0 with
@@ -368,7 +368,7 @@ theorem producer_taskAnc (g : G) (u t n : Nat) (h1 : (tv u, nv n) ∈ g.edges) (
     u ∈ taskAnc g t := by
   unfold taskAnc G.anc
   simp only [List.mem_map, List.mem_filter]
-  refine ⟨tv u, ⟨⟨two_step_ancRaw g _ _ _ h1 h2, ?_⟩, isTaskV_tv u⟩, by unfold tv; omega⟩
+  refine ⟨tv u, ⟨⟨two_step_ancRaw g _ _ _ h1 h2, ?_⟩, cr_isTaskV_tv u⟩, by unfold tv; omega⟩
   simpa using tv_ne_of_ne hne
 
 
@@ -469,8 +469,8 @@ theorem dataOrdered_of_loop (F : BodyFn) {P : Project} {cfg cfg0 : Cfg} {g : G} 
     subst this
     exact (hs.disj u hu d hdu).1 hd
   have hg := createDag_graph P cfg0 g marks hdag
-  have e1 : (tv u.id, nv d) ∈ g.edges := by rw [hg]; exact modifyDag_mono P _ _ ((baseGraph_edges P u hu).2 d hdu)
-  have e2 : (nv d, tv t) ∈ g.edges := by rw [hg, ← hid]; exact modifyDag_mono P _ _ ((baseGraph_edges P spec hspec).1 d hd)
+  have e1 : (tv u.id, nv d) ∈ g.edges := by rw [hg]; exact cr_modifyDag_mono P _ _ ((baseGraph_edges P u hu).2 d hdu)
+  have e2 : (nv d, tv t) ∈ g.edges := by rw [hg, ← hid]; exact cr_modifyDag_mono P _ _ ((baseGraph_edges P spec hspec).1 d hd)
   obtain ⟨marks', hdag'⟩ := createDag_cfg P cfg0 cfg g marks hdag
   exact Or.inr (C01_order F P cfg g marks' so so' s s' picks hdag' hso hb pre t post hp u.id
     (producer_taskAnc g u.id t d e1 e2 hne))
@@ -497,7 +497,7 @@ theorem frameOrdered_of_loop (F : BodyFn) {P : Project} {cfg cfg0 : Cfg} {g : G}
   refine ⟨hne, ?_⟩
   intro p hpp
   have eprod : (tv t, nv p) ∈ g.edges := by
-    rw [hg, ← hid]; exact modifyDag_mono P _ _ ((baseGraph_edges P spec hspec).2 p hpp)
+    rw [hg, ← hid]; exact cr_modifyDag_mono P _ _ ((baseGraph_edges P spec hspec).2 p hpp)
   refine ⟨?_, ?_⟩
   · intro hmem
     unfold neighbours at hmem
@@ -523,7 +523,7 @@ theorem frameOrdered_of_loop (F : BodyFn) {P : Project} {cfg cfg0 : Cfg} {g : G}
           apply hne
           rw [← hid, ← hx']
           exact tv_inj h1'
-      · simp [isTaskV_nv] at hb2
+      · simp [cr_isTaskV_nv] at hb2
   · intro spec' hf' heq
     exact hs.srcNotProd spec' (mem_of_find? hf') spec hspec (heq ▸ hpp)
 
@@ -620,7 +620,7 @@ theorem avoids_of_loop (F : BodyFn) {P : Project} {cfg cfg0 : Cfg} {g : G} {mark
   have hg := createDag_graph P cfg0 g marks hdag
   have hne : t' ≠ x := fun h => hx (h ▸ ht')
   have eprod : (tv x, nv p) ∈ g.edges := by
-    rw [hg, ← hid]; exact modifyDag_mono P _ _ ((baseGraph_edges P spec hspec).2 p hpp)
+    rw [hg, ← hid]; exact cr_modifyDag_mono P _ _ ((baseGraph_edges P spec hspec).2 p hpp)
   refine ⟨?_, ?_⟩
   · intro hmem
     unfold neighbours at hmem
@@ -643,7 +643,7 @@ theorem avoids_of_loop (F : BodyFn) {P : Project} {cfg cfg0 : Cfg} {g : G} {mark
           apply hne
           rw [← hid, ← hy']
           exact tv_inj h1'
-      · simp [isTaskV_nv] at hb2
+      · simp [cr_isTaskV_nv] at hb2
   · intro spec' hf' heq
     exact hs.srcNotProd spec' (mem_of_find? hf') spec hspec (heq ▸ hpp)
 
